@@ -125,7 +125,7 @@ func vIsEmptySeqElem(v interface{}) bool {
 func H_C05_decoder() {
 	vResetDecOpts()
 	v := vNondetSpecial(vPieces())
-	doc := "<r a=\"" + vEscText(v, true) + "\"><k>" + vEscText(v, false) + "</k></r>"
+	doc := "<r a=\"" + vEscText(v, true) + "\" p:b=\"" + vEscText(v, true) + "\"><k>" + vEscText(v, false) + "</k></r>"
 	if vChoose(2) == 0 {
 		XMLEscapeChars(true) // switched off again by the decoder switch
 	}
@@ -154,6 +154,7 @@ func H_C05_decoder() {
 	vAssert(e2 == nil, "decoder-escaping: the re-encoded document decodes")
 	r, _ := m2["r"].(map[string]interface{})
 	vAssert(r["-a"] == v, "decoder-escaping: the attribute value is reproduced")
+	vAssert(r["-b"] == v, "decoder-escaping: the value of a namespace-prefixed attribute is reproduced")
 	t := refTrim(v, false)
 	if t == "" {
 		vAssert(r["k"] == "", "decoder-escaping: blank element value stays empty")
